@@ -562,6 +562,7 @@ class NodeEnv:
                 cc = env.calls[cid]
                 cc.info['started'] = True
                 cc.info['parts'] = []
+                cc.info['pay_index'] = len([x for x in env.calls if x.method == 'pay' and x.info.get('started') and x is not cc])
                 req = cc.args
                 cc.info['hash'] = env.pay_hash(m, cc)
                 m.event('pay_start', cid, tuple(_tokstr(x) for x in ()))
@@ -569,7 +570,9 @@ class NodeEnv:
                 env.on_pay_start(m, cc)
             return [('pay#%d starts' % cid, start)]
         nparts = len(c.info['parts'])
-        if nparts < self.max_parts and len(self.parts) < self.max_total_parts():
+        seq = getattr(self, 'pay_seq', None)      # per pay command, in start order: (max new parts, outcomes); the last entry repeats
+        max_parts, outcomes = seq[min(c.info['pay_index'], len(seq) - 1)] if seq else (self.max_parts, self.pay_outcomes)
+        if nparts < max_parts and len(self.parts) < self.max_total_parts():
             def mkpart(m, cid=cid):
                 env = m.st.env
                 cc = env.calls[cid]
@@ -580,7 +583,7 @@ class NodeEnv:
                 m.event('part_created', p.pid, cid)
                 env.log.append(('pay', 'part', p.pid))
             out.append(('pay#%d creates part' % cid, mkpart))
-        for oc in self.pay_outcomes:
+        for oc in outcomes:
             if self.pay_outcome_enabled(m, c, oc):
                 out.append(('pay#%d returns %s' % (cid, oc), self._pay_return(cid, oc)))
         return out
